@@ -21,7 +21,8 @@ are not covered here.
 | uploads still in progress are discarded at restart | `incoming_discarded_at_restart` (files, crash model), `restart_discards_uploads` (server model: no writer, handle, connection registration or reservation survives; completed shares unchanged; agrees with the crash model's `restart`); restart is a front-end operation of the C22 histories (`FOp.restart`, token `Z`), so all C22/C28 reachable-state theorems hold across restarts |
 | lease-only operation never changes share data — mutable `add_lease` (extra-lease append) | `mutable_add_extra_lease_crash_effect`: data unchanged at every crash index (the leases of the operated-on share being unreadable at index 1 is an observation, not a clause); tied by the real-code probe in harness/props/c29.py |
 | mutable containers: lease relocation when growing, truncation, deletion | not covered here (mutable container models belong to C23–C25) |
-| torn single writes, fsync/durability | not covered (assumption: a single write/rename is atomic and durable) |
+| a kill in the MIDDLE of a write (torn write: only a prefix of the bytes reaches the file) | `other_shares_untouched_torn`, `immutable_absent_or_complete_torn` (non-lease operations: every final file unchanged or the complete incoming container, for every torn index and length); lease operations: `torn_add_lease_counterexample` (ANY partial append of the 72-byte record shifts the data region — the open known finding's window is the whole first write plus the gap before the count write); tied by the fault layer tearing every write at 1 and len/2 bytes |
+| rename/unlink atomicity, fsync/durability | not covered (assumption: these are atomic and everything written before the crash is durable) |
 | the primitive operation lists are those of the code | correspondence only: recorded trace of the real code compared with `fsops` on every case (seeded C29-b/C29-c change the trace) |
 -/
 namespace Tahoe.C29
@@ -302,6 +303,54 @@ example :
       .direct (.close 0), .direct (.write 1 0 [9])]
     allocatedSize s = 4 ∧ allocatedSize (fstep s .restart) = 0 ∧ visible (fstep s .restart) (0, 0) = true ∧
     absShare (fstep s .restart) (0, 1) = .absent ∧ (writeOp (fstep s .restart) 1 1 [8]).2 = .closed := by decide
+
+/-- **other_shares_untouched_torn**: also when the crash tears the `n`-th primitive write after `j`
+    bytes, every file that is not the share being written is byte-for-byte as before. -/
+theorem other_shares_untouched_torn (fs : IFs) (sop : SOp) (n j : Nat) (q : Path) (hq : q ∉ targets sop) :
+    tornAt fs sop n j q = restart fs q := by
+  have h : Tahoe.Base.FsOp.run fs ((fsops fs sop).take n ++ (((fsops fs sop)[n]?).map (tornOp j)).getD []) q = fs q := by
+    apply run_untouched
+    intro op ho hmem
+    rcases List.mem_append.mp ho with h1 | h1
+    · exact hq (fsops_touch fs sop op (List.mem_of_mem_take h1) q hmem)
+    · cases hn : (fsops fs sop)[n]? with
+      | none => simp [hn] at h1
+      | some o =>
+        simp only [hn, Option.map_some, Option.getD_some] at h1
+        exact hq (fsops_touch fs sop o (List.mem_of_getElem? hn) q (tornOp_touch j o op h1 q hmem))
+  cases q <;> simp_all [tornAt, restart]
+
+/-- **immutable_absent_or_complete_torn**: for every storage operation other than a lease operation,
+    every index `n` and every torn length `j`, each final share file after restart is exactly what it
+    was, or (close of that share, from the rename on) exactly the uploader's complete incoming
+    container: a torn write can only hit a file under incoming/, and `rename` is atomic. -/
+theorem immutable_absent_or_complete_torn (fs : IFs) (sop : SOp) (n j : Nat) (k' : Key)
+    (hl : ∀ k rec avail, sop ≠ .lease k rec avail) :
+    tornAt fs sop n j (.fin k') = fs (.fin k') ∨
+    (∃ last, sop = .close k' last ∧ (fs (.inc k')).isSome ∧ tornAt fs sop n j (.fin k') = fs (.inc k')) := by
+  cases sop with
+  | close k last =>
+    have : tornAt fs (.close k last) n j = crashAt fs (.close k last) n := by
+      simp only [tornAt, crashAt, close_torn_nil, List.append_nil]
+    rw [this]
+    rcases immutable_absent_or_complete fs (.close k last) n k' hl with h | ⟨l, h1, h2, _, h4⟩
+    · exact Or.inl h
+    · exact Or.inr ⟨l, h1, h2, h4⟩
+  | lease k rec avail => exact absurd rfl (hl k rec avail)
+  | create k size rec => left; rw [other_shares_untouched_torn _ _ _ _ _ (by simp [targets])]; rfl
+  | write k off data => left; rw [other_shares_untouched_torn _ _ _ _ _ (by simp [targets])]; rfl
+  | abort k last => left; rw [other_shares_untouched_torn _ _ _ _ _ (by simp [targets])]; rfl
+  | mkFinDir si => left; rw [other_shares_untouched_torn _ _ _ _ _ (by simp [targets])]; rfl
+
+set_option maxRecDepth 20000 in
+/-- **torn_add_lease_counterexample**: tearing the record append of `add_lease` after a single byte
+    already lengthens the reopened share (11 instead of 10): the crash window of the open known
+    finding is the whole first write, not only the gap between the two writes. -/
+theorem torn_add_lease_counterexample :
+    (tornAt exFs (.lease (0, 0) recB 1000) 0 1 (.fin (0, 0))).map shareLength = some 11 ∧
+    (tornAt exFs (.lease (0, 0) recB 1000) 0 36 (.fin (0, 0))).map shareLength = some 46 ∧
+    (tornAt exFs (.write (0, 1) 1 [7, 8, 9]) 0 2 (.fin (0, 0))) = some share10 := by
+  decide
 
 /-- **incoming_discarded_at_restart**: after a crash at any point of any operation, the restarted
     server has no incoming file at all (`_clean_incomplete`), and restart itself changes no final
